@@ -551,6 +551,78 @@ func runC16(c *Ctx, r *Report, tier string) {
 		}
 		r.Check(nL >= 1, "ATTR", c.fname(wh), "argument loops found", c.pos(wh.Pos()), "≥ 1", fmt.Sprintf("%d", nL))
 	}
+	// the default shown is the current one: every parse re-renders the default literal (no path of
+	// updateDefaultLiteral returns without storing it)
+	if udl := c.mustFn(r, "(*Option).updateDefaultLiteral"); udl != nil {
+		if dl := c.mustField(r, "Option", "defaultLiteral"); dl != nil {
+			for _, ret := range returnsOf(udl) {
+				c.mptRule(r, "ATTR", udl, ret, "the default literal is re-rendered on every call", c.isStoreTo(dl), "store Option.defaultLiteral", nil)
+			}
+		}
+	}
+	// aliases are listed whenever there is at least one
+	if wh := c.Fn("(*Parser).WriteHelp"); wh != nil {
+		nAl := 0
+		for _, fn := range c.Funcs {
+			if !c.actsFor(fn, wh) && c.fname(fn) != "writeManPageSubcommands" && c.fname(fn) != "writeManPageCommand" {
+				continue
+			}
+			for _, in := range c.instrs(fn, c.isCallTo("strings.Join")) {
+				call := in.(*ssa.Call)
+				at := c.term(call.Call.Args[0])
+				if !strings.HasPrefix(at, "Command.Aliases(") || in.Parent() != fn {
+					continue
+				}
+				nAl++
+				var about []string
+				for _, d := range c.controlDeps(fn, in.Block()) {
+					if l, ok := c.edgeLit(d.B, d.Succ); ok && strings.Contains(l.Term, "Command.Aliases(") {
+						about = append(about, l.String())
+					}
+				}
+				okAl := len(about) == 1 && about[0] == "nonempty("+at+")"
+				r.Check(okAl, "ATTR", c.fname(fn), "aliases are listed whenever the command has any", c.ipos(in), "REQ(len(Aliases) > 0), no stronger test", "aliases are printed under "+strings.Join(about, " ∧ ")+": a command with fewer aliases than that is listed without them")
+			}
+		}
+		r.Check(nAl >= 1, "ATTR", c.fname(wh), "alias listing found", c.pos(wh.Pos()), "≥ 1", fmt.Sprintf("%d", nAl))
+	}
+	// the environment variable shown is the one that is read: the bare env key is only tested, never printed
+	if ek := c.Field("Option", "EnvDefaultKey"); ek != nil {
+		for _, fn := range c.Funcs {
+			pos := c.pos(fn.Pos())
+			if !strings.HasPrefix(pos, "help.go:") && !strings.HasPrefix(pos, "man.go:") {
+				continue
+			}
+			for _, b := range fn.Blocks {
+				for _, in := range b.Instrs {
+					fa, ok := in.(*ssa.FieldAddr)
+					if !ok || fieldObj(fa.X.Type(), fa.Field) != ek || fa.Referrers() == nil {
+						continue
+					}
+					for _, ref := range *fa.Referrers() {
+						ld, ok := ref.(*ssa.UnOp)
+						if !ok || ld.Referrers() == nil {
+							continue
+						}
+						for _, use := range *ld.Referrers() {
+							okUse := false
+							switch u := use.(type) {
+							case *ssa.DebugRef:
+								continue
+							case *ssa.BinOp:
+								okUse = u.Op == token.EQL || u.Op == token.NEQ
+							case *ssa.Call:
+								if bi, isB := u.Call.Value.(*ssa.Builtin); isB && bi.Name() == "len" {
+									okUse = true
+								}
+							}
+							r.Check(okUse, "ATTR", c.fname(fn), "the bare env key is only tested, not printed", c.ipos(use), "printed name is EnvKeyWithNamespace()", "Option.EnvDefaultKey flows into the output: inside a group with an env-namespace the variable shown is not the one that is read")
+						}
+					}
+				}
+			}
+		}
+	}
 	// formatForMan writes all of its text: every return has passed a write of the quoted rest (not only of a prefix)
 	if ffm := c.mustFn(r, "formatForMan"); ffm != nil {
 		rest := func(in ssa.Instruction) bool {
